@@ -36,6 +36,7 @@ class JobResult:
         self.concrete_ok = 0
         self.inconclusive = []
         self.violations = []
+        self.viol_keys = {}
         self.events = {}
         self.reached = {}
         self.checks = 0
@@ -71,7 +72,11 @@ class JobResult:
         if r['inconclusive']:
             self.inconclusive.extend(r['inconclusive'][:3])
         for v in r['violations']:
-            if len(self.violations) < 200:
+            info = v.get('info') or {}
+            key = v['label'] + '|' + ','.join(sorted(k for k in info if info[k] is True))
+            n = self.viol_keys.get(key, 0)
+            self.viol_keys[key] = n + 1
+            if n < 5 and len(self.violations) < 2000:
                 self.violations.append(v)
         for k, n in r['events'].items():
             self.events[k] = self.events.get(k, 0) + n
@@ -95,7 +100,7 @@ class JobResult:
             'aborted_paths': self.aborted, 'limit_paths': self.limited, 'errors': len(self.errors),
             'obligations': self.obligations, 'discharged': self.discharged,
             'concrete_obligations': self.concrete_ok,
-            'inconclusive': len(self.inconclusive), 'violations': len(self.violations),
+            'inconclusive': len(self.inconclusive), 'violations': sum(self.viol_keys.values()),
             'events': self.events, 'reached': self.reached, 'solver_checks': self.checks,
             'solver_s': round(self.solver_s, 3), 'unknown_feasibility': self.unknown_feas,
             'complete': self.complete, 'wall_s': round(self.wall, 2),
